@@ -73,14 +73,14 @@ CHECKS = {
         text='Lean: a model of SuiteTransformer and of the tree transforms (pass, asserts, debug, literal statements with the __doc__ guard, '
              'imports, return None, object base, annotations with the dataclass/NamedTuple/TypedDict exemption, positional-only markers, '
              'exception brackets on spec-supplied names) composed in the order and under the conditions of the generated pipeline table; a '
-             'specification canon_O of the documented rewrites; theorems: for remove_pass, remove_asserts and remove_literal_statements the '
+             'specification canon_O of the documented rewrites; theorems: for remove_pass, remove_asserts, remove_literal_statements, remove_debug, combine_imports, remove_object_base and remove_explicit_return_none the '
              'output equals the input modulo canon at every nesting depth (mutual induction over statements), blocks never become empty, '
              'statements of other kinds are all kept, combining imports preserves the sequence of imported names, all-off is the identity, '
              'the pipeline table equals the modelled one (decide); under the `python -O` semantics of Spec.PyCore (validated against compile(optimize=1)) '
              'remove_asserts and remove_debug leave the observable of every module unchanged provided the removed statements bind no function-local name (decidable side condition scopeStable, evaluated per program; without it the claim is false: theorem remove_debug_changes_scoping exhibits the witness, replayed on CPython as finding F38) (the "equals what -O would run" clause). Ties: original and minified are executed under optimize=1 on directed and generated programs; the model prints the same text as minify() on every statement-kind x '
              'suite-kind template and random modules under single switches, default flips, pairs and random subsets. For the remaining '
              'options canon_O(minify(P,O)) == canon_O(P) is evaluated on the real code with the Lean specification as the oracle.',
-        note='PARTIAL: absorption theorems are proved for three of the transforms; for debug / return None / object / annotations / '
+        note='PARTIAL: absorption theorems are proved for seven of the transforms; for annotations / '
              'posargs / brackets / folding the canon is an oracle, not a theorem (folding is C07). Which names are un-shadowed builtins comes '
              'from tools/scopes.py. Trusted: Spec/Rewrites.lean as the reading of the documentation.',
         technique='Lean 4 proof (mutual structural induction, canon absorption) + model/implementation text correspondence + documented-rewrite canon oracle',
